@@ -1,0 +1,158 @@
+//go:build verif
+
+package badger
+
+import (
+	"errors"
+	"time"
+
+	"github.com/dgraph-io/badger/v4/y"
+)
+
+// VerifEntry is one stored entry as the LSM tree holds it (value pointers dereferenced).
+type VerifEntry struct {
+	Key       []byte // user key
+	Version   uint64
+	Meta      byte
+	UserMeta  byte
+	ExpiresAt uint64
+	Value     []byte
+	InVlog    bool
+}
+
+// VerifTable is one table of the tree.
+type VerifTable struct {
+	ID      uint64
+	Entries []VerifEntry
+}
+
+func (db *DB) verifEntry(key []byte, vs y.ValueStruct) VerifEntry {
+	e := VerifEntry{Key: y.Copy(y.ParseKey(key)), Version: y.ParseTs(key), Meta: vs.Meta,
+		UserMeta: vs.UserMeta, ExpiresAt: vs.ExpiresAt}
+	if vs.Meta&bitValuePointer > 0 {
+		e.InVlog = true
+		it := &Item{meta: vs.Meta, vptr: y.Copy(vs.Value), txn: &Txn{db: db}, slice: new(y.Slice), key: e.Key}
+		v, err := it.ValueCopy(nil)
+		if err == nil {
+			e.Value = v
+		}
+	} else {
+		e.Value = y.Copy(vs.Value)
+	}
+	return e
+}
+
+// VerifDump lists every level's tables (in levelHandler order) with their entries.
+func (db *DB) VerifDump() [][]VerifTable {
+	var out [][]VerifTable
+	for _, lh := range db.lc.levels {
+		lh.RLock()
+		var lv []VerifTable
+		for _, t := range lh.tables {
+			vt := VerifTable{ID: t.ID()}
+			it := t.NewIterator(0)
+			for it.Rewind(); it.Valid(); it.Next() {
+				vt.Entries = append(vt.Entries, db.verifEntry(it.Key(), it.Value()))
+			}
+			it.Close()
+			lv = append(lv, vt)
+		}
+		lh.RUnlock()
+		out = append(out, lv)
+	}
+	return out
+}
+
+// VerifMemEntries lists the entries of the active memtable and of the immutable ones
+// (oldest first), as the skiplists hold them.
+func (db *DB) VerifMemEntries() (mt []VerifEntry, imm [][]VerifEntry) {
+	db.lock.RLock()
+	defer db.lock.RUnlock()
+	dump := func(m *memTable) []VerifEntry {
+		var out []VerifEntry
+		it := m.sl.NewUniIterator(false)
+		for it.Rewind(); it.Valid(); it.Next() {
+			out = append(out, db.verifEntry(it.Key(), it.Value()))
+		}
+		it.Close()
+		return out
+	}
+	if db.mt != nil {
+		mt = dump(db.mt)
+	}
+	for _, m := range db.imm {
+		imm = append(imm, dump(m))
+	}
+	return
+}
+
+// VerifFlushMemtable rotates the active memtable exactly as ensureRoomForWrite does when it
+// is full and waits until the production flusher has turned it into an L0 table.
+func (db *DB) VerifFlushMemtable() error {
+	db.lock.Lock()
+	if db.mt == nil || db.mt.sl.Empty() {
+		db.lock.Unlock()
+		return nil
+	}
+	var err error
+	select {
+	case db.flushChan <- db.mt:
+		db.imm = append(db.imm, db.mt)
+		db.mt, err = db.newMemTable()
+	default:
+		err = errNoRoom
+	}
+	db.lock.Unlock()
+	if err != nil {
+		return err
+	}
+	deadline := time.Now().Add(60 * time.Second)
+	for {
+		db.lock.RLock()
+		n := len(db.imm)
+		db.lock.RUnlock()
+		if n == 0 {
+			return nil
+		}
+		if time.Now().After(deadline) {
+			return errors.New("verif: flush did not finish")
+		}
+		time.Sleep(time.Millisecond)
+	}
+}
+
+// VerifCompact runs the production doCompact on `level` with the current level targets.
+// l0l0 forces the L0->L0 path (an adjusted score below 1 makes fillTablesL0ToLbase decline).
+func (db *DB) VerifCompact(level int, l0l0 bool, dropPrefixes [][]byte) error {
+	p := compactionPriority{level: level, score: 1.7, adjusted: 0, dropPrefixes: dropPrefixes, t: db.lc.levelTargets()}
+	if l0l0 {
+		p.adjusted = 0.5
+	}
+	return db.lc.doCompact(0, p)
+}
+
+// VerifBaseLevel reports the base level the level targets currently select.
+func (db *DB) VerifBaseLevel() int { return db.lc.levelTargets().baseLevel }
+
+// VerifBackdateTables makes every table look old enough for the L0->L0 picker.
+func (db *DB) VerifBackdateTables(d time.Duration) {
+	for _, lh := range db.lc.levels {
+		lh.RLock()
+		for _, t := range lh.tables {
+			t.CreatedAt = t.CreatedAt.Add(-d)
+		}
+		lh.RUnlock()
+	}
+}
+
+// VerifDiscardTs is oracle.discardAtOrBelow.
+func (db *DB) VerifDiscardTs() uint64 { return db.orc.discardAtOrBelow() }
+
+// VerifNextTs is oracle.nextTs.
+func (db *DB) VerifNextTs() uint64 { return db.orc.nextTs() }
+
+// VerifIsFillTablesErr reports whether err is errFillTables.
+func VerifIsFillTablesErr(err error) bool { return err == errFillTables }
+
+// VerifReadTs exposes Txn.readTs.
+func (txn *Txn) VerifReadTs() uint64 { return txn.readTs }
